@@ -263,6 +263,17 @@ def sc_refit_tsne(cfg):
     return scenario
 
 
+def sc_refit_ptr(cfg):
+    """PiecewiseTreeRegressor(criterion='mselin') fitted twice: the second tree has as many leaves under other node
+    ids; the per-leaf regressions are those of the new tree (C09's symbolic scenario with the refit history)"""
+    from . import c09
+
+    def scenario(C):
+        c09.run_py(dict(n=3, leaves=3, refit_layout=True))(C)
+
+    return scenario
+
+
 def sc_refit_dtlr(cfg):
     """DecisionTreeLogisticRegression: nothing a node classifier learnt in one fit can reach the next fit -- the
     estimator parameter is never trained (a stateful / warm-starting one would carry its state over), every node
@@ -478,7 +489,7 @@ def sc_seed_piecewise(cfg):
     return c08.scenario_for(dict(classifier=True, binner="tree", reverse=False, weighted=False, train=3, query=1, buckets=2, seed=cfg["seed"], n_jobs=None))
 
 
-SCEN = dict(refit_dtlr=sc_refit_dtlr, refit_tsne=sc_refit_tsne, seed_piecewise=sc_seed_piecewise, refit_piecewise=sc_refit_piecewise, refit_perm=sc_refit_perm, refit_categories=sc_refit_categories, refit_cak=sc_refit_cak, refit_misc=sc_refit_misc, seed_ckm=sc_seed_ckm, seed_kml1=sc_seed_kml1)
+SCEN = dict(refit_ptr=sc_refit_ptr, refit_dtlr=sc_refit_dtlr, refit_tsne=sc_refit_tsne, seed_piecewise=sc_seed_piecewise, refit_piecewise=sc_refit_piecewise, refit_perm=sc_refit_perm, refit_categories=sc_refit_categories, refit_cak=sc_refit_cak, refit_misc=sc_refit_misc, seed_ckm=sc_seed_ckm, seed_kml1=sc_seed_kml1)
 
 
 def run_config(cfg):
@@ -507,6 +518,7 @@ def configs(tier):
     out.append(dict(kind="refit_cak"))
     out.append(dict(kind="refit_misc"))
     out.append(dict(kind="refit_tsne"))
+    out.append(dict(kind="refit_ptr"))
     for algo in ("auto", "none"):
         out.append(dict(kind="refit_dtlr", algo=algo))
     for strategy in ("distance", "gain"):
@@ -528,6 +540,7 @@ def run(ctx, rep):
     rep.add_functions("mlmodel._kmeans_constraint_", ["constraint_kmeans", "constraint_predictions", "_constraint_association_distance", "_constraint_association_gain", "_randomize_index", "_switch_clusters"])
     rep.add_functions("mlmodel.kmeans_l1", ["KMeansL1L2._fit_l1"])
     rep.add_functions("mlmodel.predictable_tsne", ["PredictableTSNE.fit"])
+    rep.add_functions("mlmodel.piecewise_tree_regression", ["PiecewiseTreeRegressor._fit_reglin", "PiecewiseTreeRegressor._predict_reglin"])
     rep.add_functions("mlmodel.decision_tree_logreg", ["DecisionTreeLogisticRegression.fit", "DecisionTreeLogisticRegression._fit_parallel", "_DecisionTreeLogisticRegressionNode.fit"])
     cfgs = configs(ctx.tier)
     rep.bounds = dict(refit="pairs (A, B) of 2-3 rows with different sizes / bucket layouts / label sets / categorical columns", seeds="integer random_state 0/3 and None; every draw symbolic and realised (n=2 points, k=2 clusters for ConstraintKMeans)")
